@@ -125,7 +125,11 @@ func (c *OpenIDConnectHybridHandler) HandleAuthorizeEndpointRequest(ctx context.
 		claims.CodeHash = hash
 
 		if ar.GetGrantedScopes().Has("openid") {
-			if err := c.OpenIDConnectRequestStorage.CreateOpenIDConnectSession(ctx, resp.GetCode(), ar.Sanitize(oidcParameters)); err != nil {
+			// The ID Token issued below writes its expiry and hashes into the session's claims. The stored request must
+			// not see them, or the ID Token issued for the code later inherits this ID Token's expiry.
+			oidcRequest := ar.Sanitize(oidcParameters)
+			oidcRequest.SetSession(ar.GetSession().Clone())
+			if err := c.OpenIDConnectRequestStorage.CreateOpenIDConnectSession(ctx, resp.GetCode(), oidcRequest); err != nil {
 				return errorsx.WithStack(fosite.ErrServerError.WithWrap(err).WithDebug(err.Error()))
 			}
 		}
